@@ -749,7 +749,16 @@ class JsonHistory(History):
 
         # Write empty history directly — flush() would skip empty buffer.
         if self.filename:
-            meta = {"cmds": [], "sessionid": str(self.sessionid)}
+            # Keep the file's other metadata: without ``locked`` and ``ts``
+            # the live session's file looks like the oldest unlocked one
+            # to every later garbage collection.
+            try:
+                with open(self.filename, newline="\n", encoding="utf-8") as f:
+                    meta = xlj.LazyJSON(f).load()
+            except (OSError, ValueError):
+                meta = {}
+            meta["cmds"] = []
+            meta["sessionid"] = str(self.sessionid)
             with open(self.filename, "w", newline="\n", encoding="utf-8") as f:
                 xlj.ljdump(meta, f, sort_keys=True)
 
